@@ -42,7 +42,6 @@ Record lstate := {
   l_prints : list lstmt;
   l_params : list value;
   l_prev : list (elem_key * stmt_ctx);          (* prev_element_debug_info *)
-  l_polls : polls;
 }.
 
 Record llenv := {
@@ -64,26 +63,25 @@ Section Lazy.
   Variable fl : file.
   Variable cfg : config.
   Variable glob : globals.
-  Variable budget : option N.
   Variable regexes : list rx.
   Variable find : rx -> str -> option (list (option (N * N))).
   Variable call : ident -> graph -> list value -> res (value * graph).
 
   Notation LM := (M lstate).
 
-  Definition upd (f : lstate -> lstate) : LM unit := fun s => Ok (tt, f s).
+  Definition upd (f : lstate -> lstate) : LM unit := modify f.
   Definition set_lgraph (g : graph) : LM unit :=
     upd (fun s => {| l_graph := g; l_locals := l_locals s; l_store := l_store s; l_scoped := l_scoped s; l_edges := l_edges s;
-                     l_attrs := l_attrs s; l_prints := l_prints s; l_params := l_params s; l_prev := l_prev s; l_polls := l_polls s |}).
+                     l_attrs := l_attrs s; l_prints := l_prints s; l_params := l_params s; l_prev := l_prev s |}).
   Definition set_llocals (x : varmap lvalue) : LM unit :=
     upd (fun s => {| l_graph := l_graph s; l_locals := x; l_store := l_store s; l_scoped := l_scoped s; l_edges := l_edges s;
-                     l_attrs := l_attrs s; l_prints := l_prints s; l_params := l_params s; l_prev := l_prev s; l_polls := l_polls s |}).
+                     l_attrs := l_attrs s; l_prints := l_prints s; l_params := l_params s; l_prev := l_prev s |}).
   Definition set_lstore (x : list thunk) : LM unit :=
     upd (fun s => {| l_graph := l_graph s; l_locals := l_locals s; l_store := x; l_scoped := l_scoped s; l_edges := l_edges s;
-                     l_attrs := l_attrs s; l_prints := l_prints s; l_params := l_params s; l_prev := l_prev s; l_polls := l_polls s |}).
+                     l_attrs := l_attrs s; l_prints := l_prints s; l_params := l_params s; l_prev := l_prev s |}).
   Definition set_lscoped (x : list (ident * scoped_values)) : LM unit :=
     upd (fun s => {| l_graph := l_graph s; l_locals := l_locals s; l_store := l_store s; l_scoped := x; l_edges := l_edges s;
-                     l_attrs := l_attrs s; l_prints := l_prints s; l_params := l_params s; l_prev := l_prev s; l_polls := l_polls s |}).
+                     l_attrs := l_attrs s; l_prints := l_prints s; l_params := l_params s; l_prev := l_prev s |}).
   Definition push_lstmt (st : lstmt) : LM unit :=
     upd (fun s =>
       let '(e, a, p) := match st with
@@ -92,19 +90,15 @@ Section Lazy.
                         | LSPrint _ _ => (l_edges s, l_attrs s, l_prints s ++ [st])
                         end in
       {| l_graph := l_graph s; l_locals := l_locals s; l_store := l_store s; l_scoped := l_scoped s; l_edges := e;
-         l_attrs := a; l_prints := p; l_params := l_params s; l_prev := l_prev s; l_polls := l_polls s |}).
+         l_attrs := a; l_prints := p; l_params := l_params s; l_prev := l_prev s |}).
   Definition set_lparams (x : list value) : LM unit :=
     upd (fun s => {| l_graph := l_graph s; l_locals := l_locals s; l_store := l_store s; l_scoped := l_scoped s; l_edges := l_edges s;
-                     l_attrs := l_attrs s; l_prints := l_prints s; l_params := x; l_prev := l_prev s; l_polls := l_polls s |}).
+                     l_attrs := l_attrs s; l_prints := l_prints s; l_params := x; l_prev := l_prev s |}).
   Definition set_lprev (x : list (elem_key * stmt_ctx)) : LM unit :=
     upd (fun s => {| l_graph := l_graph s; l_locals := l_locals s; l_store := l_store s; l_scoped := l_scoped s; l_edges := l_edges s;
-                     l_attrs := l_attrs s; l_prints := l_prints s; l_params := l_params s; l_prev := x; l_polls := l_polls s |}).
+                     l_attrs := l_attrs s; l_prints := l_prints s; l_params := l_params s; l_prev := x |}).
 
-  Definition lpoll (label : N) : LM unit :=
-    fun s => let '(p', cancelled) := poll_step budget label (l_polls s) in
-             if cancelled then Err (ECancelled label)
-             else Ok (tt, {| l_graph := l_graph s; l_locals := l_locals s; l_store := l_store s; l_scoped := l_scoped s; l_edges := l_edges s;
-                             l_attrs := l_attrs s; l_prints := l_prints s; l_params := l_params s; l_prev := l_prev s; l_polls := p' |}).
+  Definition lpoll (label : N) : LM unit := poll label.
   Fixpoint lpoll_n (n : nat) (label : N) : LM unit :=
     match n with O => ret tt | S n' => lpoll label ;;; lpoll_n n' label end.
 
@@ -125,7 +119,7 @@ Section Lazy.
     match name with Some k => ladd_node_attr n k v | None => ret tt end.
 
   (* a fresh error raised directly inside a context (`Err(e).with_context(..)`) *)
-  Definition fail_in {A} (c : context) (e : exec_error) : LM A := fun _ => Err (EInContext c e).
+  Definition fail_in {A} (c : context) (e : exec_error) : LM A := fun _ _ => Err (EInContext c e).
 
   (* graph mutations of the evaluation phase (statements.rs) *)
   Definition lattr_node_add (n : N) (k : ident) (v : value) (prev : option stmt_ctx) (dbg : stmt_ctx) : LM unit :=
@@ -624,16 +618,16 @@ End Lazy.
 
 Definition linit (g : graph) : lstate :=
   {| l_graph := g; l_locals := [[]]; l_store := []; l_scoped := []; l_edges := []; l_attrs := []; l_prints := [];
-     l_params := []; l_prev := []; l_polls := polls0 |}.
+     l_params := []; l_prev := [] |}.
 
 Definition run_lazy {rx : Type} (t : tree) (fl : file) (cfg : config) (supplied : globals) (budget : option N)
     (regexes : list rx) (find : rx -> str -> option (list (option (N * N))))
     (call : ident -> graph -> list value -> res (value * graph))
-    (fuel : nat) (matches : list (N * qmatch)) (g0 : graph) : outcome exec_error lstate :=
+    (fuel : nat) (matches : list (N * qmatch)) (g0 : graph) : outcome exec_error (lstate * polls) :=
   match check_globals (f_globals fl) (globals_nested supplied) with
   | Ok glob =>
-      match lexec_file t fl cfg glob budget regexes find call fuel matches (linit g0) with
-      | Ok (_, s) => Ok s
+      match lexec_file t fl cfg glob regexes find call fuel matches (linit g0) (polls0 budget) with
+      | Ok (_, s, p) => Ok (s, p)
       | Err e => Err e
       | Panic p => Panic p
       | OutOfFuel => OutOfFuel
